@@ -271,3 +271,40 @@ Proof.
   - rewrite Ew1, Ef. change (w_off (wst info s)) with (len (image info bs)).
     rewrite recover_leaves_zero_tail. eexists. reflexivity.
 Qed.
+
+(* ---------------- the 2^32 guards from L2's own size invariants ---------------- *)
+(* The hypotheses are those of Wal/CrashCalls4.v append_sizes, i.e. what
+   cfg_ok / sop_ok / CrashInv.fsz_ok give for the tail segment: limit and batch
+   below 2^30, write offset at most limit + 8 while unsealed, at least 8 bytes
+   per entry. *)
+Lemma frames_size_ge8 ls : 8 * llen ls <= frames_size ls.
+Proof.
+  rewrite frames_size_eq. unfold llen. induction ls as [|l r IH].
+  - cbn. lia.
+  - cbn [map length]. rewrite len_entries_bytes_cons.
+    pose proof (enc_frame_size_ge (len (enc l))). lia.
+Qed.
+
+Lemma index_frame_size_le' n : index_frame_size n <= 4 * n + 15.
+Proof.
+  unfold index_frame_size. destruct (n =? 0); [lia|]. unfold enc_frame_size.
+  pose proof (pad_len_lt (n * 4)). lia.
+Qed.
+
+Theorem l2_append_guard w2 ls :
+  ws_limit w2 < 1073741824 -> ws_off w2 <= ws_limit w2 + 8 -> 8 * ws_n w2 <= ws_off w2 ->
+  frames_size ls < 1073741824 ->
+  ws_off w2 + l2_total w2 ls < two32.
+Proof.
+  intros HL Hoff Hn HF. pose proof (frames_size_ge8 ls) as Hk.
+  pose proof (index_frame_size_le' (ws_n w2 + llen ls)) as Hi.
+  unfold l2_total, hdr_len, two32. destruct (l2_seal w2 ls); destruct (ws_hdr w2); lia.
+Qed.
+
+Theorem l2_force_seal_guard w2 :
+  ws_limit w2 < 1073741824 -> ws_off w2 <= ws_limit w2 + 8 -> 8 * ws_n w2 <= ws_off w2 ->
+  ws_off w2 + fs_total w2 < two32.
+Proof.
+  intros HL Hoff Hn. pose proof (index_frame_size_le' (ws_n w2)) as Hi.
+  unfold fs_total, hdr_len, two32. destruct (ws_hdr w2); lia.
+Qed.
